@@ -2,6 +2,7 @@ package verifsim
 
 import (
 	"errors"
+	"io"
 	"fmt"
 	"os"
 	"sort"
@@ -304,4 +305,16 @@ func OSLink(oldname, newname string) error {
 		return &os.LinkError{Op: "link", Old: oldname, New: newname, Err: errDead}
 	}
 	return os.Link(oldname, newname)
+}
+
+// Stdin replaces os.Stdin in dtail's prompt package: reading the user's answer
+// is a scheduling point ("user/answers"), at which a stall rule can model the
+// time the user takes to answer.
+func Stdin() io.Reader { return stdinReader{} }
+
+type stdinReader struct{}
+
+func (stdinReader) Read(p []byte) (int, error) {
+	Yield("user/answers")
+	return os.Stdin.Read(p)
 }
